@@ -12,7 +12,8 @@ def judge(job, res):
         if run["rc"] != 0 or run["exc"]:
             st["run_failed"] += 1; continue
         for e in run["trace"]:
-            if e["k"] != "pipe" or e["before"] is None or e["after"] is None or e["before"] == e["after"]: continue
+            if e["k"] == "dep_write" and not str(e["path"]).endswith(".py"): continue     # the dependency writer also rewrites Python source (setup.py): judged like any other write
+            if e["k"] not in ("pipe", "dep_write") or e["before"] is None or e["after"] is None or e["before"] == e["after"]: continue
             name = os.path.basename(e["path"]); lab = tuple(job["labels"].get(name, ()))
             bb, ab = unb(e["before"]), unb(e["after"])
             okb, _ = O.parses(bb)                      # bytes: the compiler honours BOM and PEP 263 cookie itself
